@@ -68,6 +68,8 @@ def cases(tier, seed):
         yield "triangle", dict(i=i)
     for i in range(n):
         yield "translate", dict(i=i)
+    for ra in (10.0, 0.0, 359.9, 123.456):
+        yield "poledest", dict(ra=ra)
     for d in (0, 1, 9, 23, 45, 89):
         yield "spellings", dict(d=d)
     for fn in ("gcd", "bear", "translate"):
@@ -320,6 +322,31 @@ def exact_dms(fr):
     return "%s%02d:%02d:%02d.%02d" % (sign, d, mi, cs // 100, cs % 100), Fraction(n, 360000) * (-1 if sign == "-" else 1)
 
 
+def ev_poledest(case, ctx):
+    """translations whose destination is exactly a celestial pole (start at dec d, distance 90 - d due north / 90 + d due south):
+    the result is the pole (to the 2e-6 deg the documented arcsin form allows there), never NaN"""
+    ra = case["ra"]
+    for d in (82.0, 8.0, 60.0, 0.5, 45.0, 89.0, 30.0, 0.0, -20.0, -75.5):
+        for pole, r, t in ((90.0, 90.0 - d, 0.0), (-90.0, 90.0 + d, 180.0), (90.0, 90.0 - d, 360.0), (-90.0, 90.0 + d, -180.0)):
+            if not 0 < r < 180:
+                continue
+            ctx.count("poledest")
+            sig = "poledest:start=(%g,%g),r=%g,t=%g" % (ra, d, r, t)
+            ctx.nontrivial(sig)
+            try:
+                ra2, dec2 = at.translate(ra, d, r, t)
+                rav, decv = at.translate(np.array([ra, ra]), np.array([d, d]), np.array([r, r]), np.array([t, t]))
+            except Exception as e:
+                ctx.violation("translate(%g, %g, %g, %g) raised %r" % (ra, d, r, t, e), "poledest_raise|" + sig)
+                continue
+            if not (np.isfinite(ra2) and np.isfinite(dec2) and np.all(np.isfinite(rav)) and np.all(np.isfinite(decv))):
+                ctx.violation("translate(%g, %g, %g, %g) = (%r, %r): the destination is the pole, the result is not finite" % (ra, d, r, t, ra2, dec2), "poledest_nan|" + sig)
+                continue
+            if not (abs(dec2 - pole) <= 2e-6 and abs(decv[0] - pole) <= 2e-6):
+                ctx.violation("translate(%g, %g, %g, %g) lands at dec %.9g, the destination is the pole at %+g" % (ra, d, r, t, dec2, pole), "poledest|" + sig)
+    ctx.outcome("poledest")
+
+
 def ev_spellings(case, ctx):
     """the documented input format is `[+- ]dd:mm[:ss.s]`, colons or white space: every spelling of every whole-arcminute
     angle of one degree (sign, separators, optional seconds field, explicit plus) parses to the same exact value"""
@@ -417,7 +444,7 @@ def ev_nonfinite(case, ctx):
                 ctx.violation("%s(%r) = %r" % (f.__name__, x, f(x)), "nonfinite|%s(%r)" % (f.__name__, x))
 
 
-CLAUSES = dict(spellings=ev_spellings, arrays=ev_arrays, gcd_pairs=ev_gcd_pairs, bear_pairs=ev_bear_pairs, triangle=ev_triangle, translate=ev_translate,
+CLAUSES = dict(poledest=ev_poledest, spellings=ev_spellings, arrays=ev_arrays, gcd_pairs=ev_gcd_pairs, bear_pairs=ev_bear_pairs, triangle=ev_triangle, translate=ev_translate,
                dms_boundary=ev_dms_boundary, hms_boundary=ev_hms_boundary, sexa_lattice=ev_sexa_lattice,
                nonfinite=ev_nonfinite)
 
